@@ -300,7 +300,7 @@ impl Prop for C06 {
                     rep.count(&format!("path_{:?}", path), 1);
                     last_result = results.iter().map(|r| r.doc_id).collect();
                     judge(&results, &qv, *k, metric, &model, if tiered { Some((&recent, &te)) } else { None }).map_err(|mut f| {
-                        f.msg = at(f.msg);
+                        f.msg = at(format!("[path {:?}] {}", path, f.msg));
                         f
                     })?;
                     let tomb_ratio = if slots > 0 { 1.0 - (model.len() as f64 / slots.max(model.len()) as f64) } else { 0.0 };
@@ -465,6 +465,19 @@ pub fn judge(
                 Some(kd) => d < kd - tol(kd) - tol(d),
             };
             if must {
+                if std::env::var("KVH_DEBUG_C06").is_ok() {
+                    eprintln!("DEBUG results: {:?}", results.iter().map(|r| (r.doc_id, r.distance)).collect::<Vec<_>>());
+                    eprintln!("DEBUG hot knn top5: {:?}", te.engine.hot_tier().knn_search(q, 5));
+                    eprintln!("DEBUG cold knn top3: {:?}", te.engine.cold_tier().knn_search(q, 3).map(|v| v.iter().map(|r| (r.doc_id, r.distance)).collect::<Vec<_>>()));
+                    eprintln!("DEBUG hot len {} query {:?} doc {:?}", te.engine.hot_tier().len(), q, doc.vec_f32());
+                    eprintln!("DEBUG sync search: {:?}", te.engine.knn_search_with_ef_detailed_scoped(q, k, None, 987654).map(|(r, p)| (r.iter().map(|x| (x.doc_id, x.distance)).collect::<Vec<_>>(), p)));
+                    for id in [82u64, 208] {
+                        eprintln!("DEBUG id {} hot token {:?} cold token {:?} exists {}", id, te.engine.hot_tier().peek_with_coherence(id).map(|x| x.1), te.engine.cold_tier().current_coherence_token(id), te.engine.cold_tier().exists(id));
+                    }
+                    te.qcache.clear();
+                    eprintln!("DEBUG batch search scope 0 after clear: {:?}", te.engine.knn_search_batch_with_ef_detailed_scoped(&[q.to_vec(), q.to_vec()], k, None, 0).map(|v| v.iter().map(|(r, p)| (r.iter().map(|x| (x.doc_id, x.distance)).collect::<Vec<_>>(), *p)).collect::<Vec<_>>()));
+                    eprintln!("DEBUG batch search: {:?}", te.engine.knn_search_batch_with_ef_detailed_scoped(&[q.to_vec(), q.to_vec()], k, None, 987655).map(|v| v.iter().map(|(r, p)| (r.iter().map(|x| (x.doc_id, x.distance)).collect::<Vec<_>>(), *p)).collect::<Vec<_>>()));
+                }
                 return Err(Failure::new(
                     "recent_write_missing",
                     format!("id {} is acknowledged, still in the recent-write tier, at distance {} but missing from a result with {} entries (k={}, k-th distance {:?})", id, d, results.len(), k, kth),
